@@ -586,6 +586,9 @@ class Executor:
                     # exact semantics is only used by the algebra logic)
                     f = z3.Function('fmul', z3.RealSort(), z3.RealSort(),
                                     z3.RealSort())
+                    if self.cfg.get('algebra'):
+                        self.alg_facts = getattr(self, 'alg_facts', [])
+                        self.alg_facts.append(f(ta, tb) == ta * tb)
                     return R(f(ta, tb))
             return self.wrap_num('real' if real else 'int', ta * tb)
         if isinstance(op, ast.Div):
@@ -596,6 +599,10 @@ class Executor:
                     z3.simplify(tb)):
                 f = z3.Function('fdiv', z3.RealSort(), z3.RealSort(),
                                 z3.RealSort())
+                if self.cfg.get('algebra'):
+                    self.alg_facts = getattr(self, 'alg_facts', [])
+                    self.alg_facts.append(z3.Implies(
+                        tb != 0, f(ta, tb) * tb == ta))
                 return R(f(ta, tb))
             return R(ta / tb)
         if isinstance(op, ast.FloorDiv):
